@@ -2,7 +2,8 @@
 (***************************************************************************)
 (* ak/ghist.py: component builds and the parent builds that ship them (C07)*)
 (*                                                                         *)
-(* Component repository "lib": a linear history 1..k on master, matching   *)
+(* Component repository "lib": a history 1..k on master (a DAG: commits    *)
+(* have 0-2 earlier commits as parents, the head is commit k), matching    *)
 (* flags, build tags (build numbers grow with the commit number).          *)
 (* Parent repository "app": a history as in GHist whose commits pin a      *)
 (* component build (pin[c] = a tagged component commit), never decreasing  *)
@@ -15,39 +16,49 @@
 (*  every such B is reported in branch b even without own matching commits *)
 (***************************************************************************)
 EXTENDS GHist, Json
-CONSTANTS MaxComp, MaxCommits, MaxTags, MaxBranches, Emit
+CONSTANTS MaxComp, MaxCommits, MaxTags, MaxBranches, Emit,
+          Diamond      \* TRUE: the component graph is the diamond 1 <- 2, 1 <- 3, {2, 3} <- 4 with at most one tag per commit
 
 VARIABLES ck, cmatch, ctagged,                 \* component; ctagged[c] = number of build tags on commit c (0..2)
+          cparents,                             \* component commit graph
           n, parents, match, tagged, head, pin, \* parent
           pin2,                                 \* pin2[c]: the parent commit names the SECOND build tag of pin[c]
           phase
-vars == <<ck, cmatch, ctagged, n, parents, match, tagged, head, pin, pin2, phase>>
+vars == <<ck, cmatch, ctagged, cparents, n, parents, match, tagged, head, pin, pin2, phase>>
 
 CTagged == { c \in 1 .. ck : ctagged[c] > 0 }
+RECURSIVE CAnc(_)
+CAnc(c) == {c} \cup UNION { CAnc(p) : p \in cparents[c] }                 \* component ancestors or self
+(* for a LINEAR component the report-related builds are a function of the history (used by the sanity          *)
+(* invariants only; the judge takes the report-related builds from the component's own report)                 *)
 PrevTag(t) == IF \E x \in CTagged : x < t THEN CHOOSE x \in CTagged : x < t /\ \A y \in CTagged : y < t => y <= x ELSE 0
-(* report-related component builds: tagged commits that bring a new matching commit; the component head *)
-(* counts as an (unbuilt) build too but cannot be pinned                                                 *)
+Linear == \A c \in 1 .. ck : cparents[c] = (IF c = 1 THEN {} ELSE {c - 1})
 RB == { t \in CTagged : \E c \in (PrevTag(t) + 1) .. t : cmatch[c] }
 
-Init == /\ ck = 0 /\ cmatch = <<>> /\ ctagged = <<>> /\ n = 0 /\ parents = <<>> /\ match = <<>> /\ tagged = <<>>
+Init == /\ ck = 0 /\ cmatch = <<>> /\ ctagged = <<>> /\ cparents = <<>> /\ n = 0 /\ parents = <<>> /\ match = <<>> /\ tagged = <<>>
         /\ head = <<>> /\ pin = <<>> /\ pin2 = <<>> /\ phase = "comp"
-CompCommit(m, t) == /\ phase = "comp" /\ ck < MaxComp
+DiamondParents(c) == CASE c = 1 -> {} [] c = 2 -> {1} [] c = 3 -> {1} [] OTHER -> {2, 3}
+CompCommit(ps, m, t) == /\ phase = "comp" /\ ck < (IF Diamond THEN 4 ELSE MaxComp)
+                    /\ (ck > 0 => ps # {})                    \* one root: everything is an ancestor of the head
+                    /\ (Diamond => ps = DiamondParents(ck + 1) /\ t <= 1)
                     /\ ck' = ck + 1 /\ cmatch' = Append(cmatch, m) /\ ctagged' = Append(ctagged, t)
+                    /\ cparents' = Append(cparents, ps)
                     /\ UNCHANGED <<n, parents, match, tagged, head, pin, pin2, phase>>
-EndComp == /\ phase = "comp" /\ CTagged # {} /\ phase' = "commits"
-           /\ UNCHANGED <<ck, cmatch, ctagged, n, parents, match, tagged, head, pin, pin2>>
-MinPin(ps) == IF ps = {} THEN 0 ELSE CHOOSE x \in { pin[p] : p \in ps } : \A y \in { pin[p] : p \in ps } : y <= x
+EndComp == /\ phase = "comp" /\ CTagged # {} /\ phase' = "commits" /\ (Diamond => ck = 4)
+           /\ \A c \in 1 .. ck : c \in CAnc(ck)               \* every component commit is reachable from the head
+           /\ UNCHANGED <<ck, cmatch, ctagged, cparents, n, parents, match, tagged, head, pin, pin2>>
 Commit(ps, m, tg, pn, p2) ==
   /\ phase = "commits" /\ n < MaxCommits
-  /\ pn \in CTagged /\ pn >= MinPin(ps)                        \* the pin never decreases along a path
+  /\ pn \in CTagged /\ \A p \in ps : pin[p] \in CAnc(pn)          \* the pinned version never decreases along a path
   /\ (p2 => ctagged[pn] = 2)
+  /\ (Diamond => \A p \in ps : pin[p] # pn \/ TRUE)
   /\ \A p \in ps : (pin[p] = pn /\ pin2[p]) => p2
   /\ (tg => Cardinality({ d \in 1 .. n : tagged[d] }) < MaxTags)
   /\ n' = n + 1 /\ parents' = Append(parents, ps) /\ match' = Append(match, m)
   /\ tagged' = Append(tagged, tg) /\ pin' = Append(pin, pn) /\ pin2' = Append(pin2, p2)
-  /\ UNCHANGED <<ck, cmatch, ctagged, head, phase>>
+  /\ UNCHANGED <<ck, cmatch, ctagged, cparents, head, phase>>
 EndCommits == /\ phase = "commits" /\ n > 0 /\ phase' = "heads"
-              /\ UNCHANGED <<ck, cmatch, ctagged, n, parents, match, tagged, head, pin, pin2>>
+              /\ UNCHANGED <<ck, cmatch, ctagged, cparents, n, parents, match, tagged, head, pin, pin2>>
 H0 == [n |-> n, parents |-> parents, match |-> match, tagged |-> tagged, head |-> head]
 SetHead(b, c) == /\ phase = "heads" /\ b \notin DOMAIN head
                  /\ \A x \in DOMAIN head : Rank(x) < Rank(b)
@@ -56,22 +67,22 @@ SetHead(b, c) == /\ phase = "heads" /\ b \notin DOMAIN head
                  /\ c \notin UNION { Anc(H0, head[x]) : x \in DOMAIN head }
                  /\ head' = (b :> c) @@ head
                  /\ phase' = IF b = "master" THEN "done" ELSE "heads"
-                 /\ UNCHANGED <<ck, cmatch, ctagged, n, parents, match, tagged, pin, pin2>>
+                 /\ UNCHANGED <<ck, cmatch, ctagged, cparents, n, parents, match, tagged, pin, pin2>>
 
 (* ---------------- A-spec ---------------- *)
-Ships(B, CB) == pin[B] >= CB                                  \* linear component: the pinned build contains CB
+Ships(B, CB) == CB \in CAnc(pin[B])                           \* the pinned build contains CB
 FirstShipping(b, CB) ==
   LET cand == { B \in BuildsOf(H0, b) : Ships(B, CB) } IN Minimal(H0, cand)
 IncludedAt(CB) == { <<b, B>> : b \in DOMAIN head, B \in 1 .. n } \cap
                   UNION { { <<b, B>> : B \in FirstShipping(b, CB) } : b \in DOMAIN head }
 
 Report == /\ phase = "done" /\ phase' = "reported"
-          /\ Emit => PrintT(ToJson([ck |-> ck, cmatch |-> cmatch, ctagged |-> ctagged,
+          /\ Emit => PrintT(ToJson([ck |-> ck, cmatch |-> cmatch, ctagged |-> ctagged, cparents |-> cparents, linear |-> Linear,
                                     h |-> [n |-> n, parents |-> parents, match |-> match, tagged |-> tagged, head |-> head],
                                     pin |-> pin, pin2 |-> pin2, rb |-> RB,
-                                    incl |-> [cb \in RB |-> IncludedAt(cb)]]))
-          /\ UNCHANGED <<ck, cmatch, ctagged, n, parents, match, tagged, head, pin, pin2>>
-Next == \/ \E m \in BOOLEAN : \E t \in 0 .. 2 : CompCommit(m, t)
+                                    incl |-> [cb \in CTagged |-> IncludedAt(cb)]]))
+          /\ UNCHANGED <<ck, cmatch, ctagged, cparents, n, parents, match, tagged, head, pin, pin2>>
+Next == \/ \E ps \in { s \in SUBSET (1 .. ck) : Cardinality(s) <= 2 } : \E m \in BOOLEAN : \E t \in 0 .. 2 : CompCommit(ps, m, t)
         \/ EndComp \/ EndCommits \/ Report
         \/ \E ps \in { s \in SUBSET (1 .. n) : Cardinality(s) <= 2 } : \E m \in BOOLEAN : \E tg \in BOOLEAN : \E pn \in 1 .. ck : \E p2 \in BOOLEAN : Commit(ps, m, tg, pn, p2)
         \/ \E b \in { BranchNames[i] : i \in 1 .. Len(BranchNames) } : \E c \in 1 .. n : SetHead(b, c)
@@ -80,9 +91,9 @@ Spec == Init /\ [][Next]_vars
 (* sanity: on every branch every report-related component build that the head ships is included somewhere, *)
 (* and never at two builds one of which contains the other                                               *)
 IncludedSomewhere == phase \in {"done", "reported"} =>
-  \A cb \in RB : \A b \in DOMAIN head :
-     (pin[head[b]] >= cb) => \E B \in 1 .. n : <<b, B>> \in IncludedAt(cb)
+  \A cb \in CTagged : \A b \in DOMAIN head :
+     (cb \in CAnc(pin[head[b]])) => \E B \in 1 .. n : <<b, B>> \in IncludedAt(cb)
 NeverTwiceOnAPath == phase \in {"done", "reported"} =>
-  \A cb \in RB : \A x \in IncludedAt(cb) : \A y \in IncludedAt(cb) :
+  \A cb \in CTagged : \A x \in IncludedAt(cb) : \A y \in IncludedAt(cb) :
      (x[1] = y[1] /\ x[2] # y[2]) => (x[2] \notin Anc(H0, y[2]) /\ y[2] \notin Anc(H0, x[2]))
 =============================================================================
